@@ -3,8 +3,8 @@
 # any obligation that fails under some seed is a flaky proof to be hardened (never a finding).
 # usage: sweep.sh "<seeds>" <check ids...>
 SEEDS=$1; shift
-[ -d /tmp/devrepo ] || { mkdir -p /tmp/devrepo && git -C /repo archive HEAD | tar -x -C /tmp/devrepo && cp /repo/Cargo.lock /tmp/devrepo/; }
-export VEKVERIF_REPO=/tmp/devrepo VEKVERIF_EVIDENCE=/tmp/vekverif/ev_dev VEKVERIF_DEV_SKIP_KANI=1
+[ -d /tmp/devrepo_sweep ] || { mkdir -p /tmp/devrepo_sweep && git -C /repo archive HEAD | tar -x -C /tmp/devrepo_sweep && cp /repo/Cargo.lock /tmp/devrepo_sweep/; }
+export VEKVERIF_REPO=/tmp/devrepo_sweep VEKVERIF_EVIDENCE=/tmp/vekverif_sweep/ev VEKVERIF_WORK=/tmp/vekverif_sweep VEKVERIF_DEV_SKIP_KANI=1
 for s in $SEEDS; do for c in "$@"; do
   r=$(VEKVERIF_Z3_SEED=$s /verif/check $c 2>&1 | grep -E "^(VIOLATION|OK|UNDECIDED|  failed)" | head -4 | cut -c1-160 | tr '\n' ';')
   echo "seed=$s $c: $r"
